@@ -158,7 +158,6 @@ func (w *c13BitW) flush() {
 }
 
 type c13Cfg struct {
-	RepoEdge    bool // NOT the standard: predict with c13PxRepoConvention (explains the known finding)
 	Pred        int
 	Td          []int             // per component
 	Tables      map[int]c13Table  // destination -> table
@@ -243,9 +242,6 @@ func c13RefEncode(im c02Img, cfg c13Cfg) []byte {
 					rc = s[(row-1)*im.W+col-1]
 				}
 				px := c13Px(im.P, 0, cfg.Pred, row, col, ra, rb, rc)
-				if cfg.RepoEdge {
-					px = c13PxRepoConvention(im.P, cfg.Pred, row, col, ra, rb, rc)
-				}
 				d := c13Diff(s[row*im.W+col], px)
 				cd := codes[cfg.Td[c]][c13SSSS(d)]
 				w.put(cd.Code, cd.Len)
@@ -285,35 +281,8 @@ func (r *c13BitR) bit() (int, error) {
 	return (r.acc >> uint(r.nacc)) & 1, nil
 }
 
-// c13PxRepoConvention is NOT the standard: it is the edge convention of jpeg/lossless at /repo HEAD (the
-// selected predictor everywhere except the very first sample, with 2^(P-1) standing in for missing
-// neighbours; predictor 1 takes the sample above at line starts). It is used only to decide whether a
-// conformance failure is fully explained by the known finding jll-firstrow-predictor-*.
-func c13PxRepoConvention(p, sel, row, col, left, up, upLeft int) int {
-	h := 1 << uint(p-1)
-	if row == 0 && col == 0 {
-		return h
-	}
-	ra, rb, rc := h, h, h
-	if col > 0 {
-		ra = left
-	} else if row > 0 && sel == 1 {
-		ra = up
-	}
-	if row > 0 {
-		rb = up
-	}
-	if row > 0 && col > 0 {
-		rc = upLeft
-	}
-	return c13Predictor(sel, ra, rb, rc)
-}
-
 // c13RefDecode decodes a single-scan SOF3 stream per T.81. It returns the image and the predictor used.
-func c13RefDecode(data []byte) (im c02Img, pred int, err error) { return c13RefDecodeConv(data, false) }
-
-// c13RefDecodeConv: repoEdge = true replaces H.1.2.1's edge rules by c13PxRepoConvention.
-func c13RefDecodeConv(data []byte, repoEdge bool) (im c02Img, pred int, err error) {
+func c13RefDecode(data []byte) (im c02Img, pred int, err error) {
 	if len(data) < 4 || data[0] != 0xFF || data[1] != 0xD8 {
 		return im, 0, errors.New("no SOI")
 	}
@@ -467,9 +436,6 @@ func c13RefDecodeConv(data []byte, repoEdge bool) (im c02Img, pred int, err erro
 							rc = s[(row-1)*im.W+col-1]
 						}
 						px := c13Px(im.P, 0, pred, row, col, ra, rb, rc)
-						if repoEdge {
-							px = c13PxRepoConvention(im.P, pred, row, col, ra, rb, rc)
-						}
 						x := (px + c13Extend(v, sym)) & 0xFFFF
 						s[row*im.W+col] = x
 					}
